@@ -246,12 +246,12 @@ def make_strategy(policy, log):
             x = r.random()
             if x < P['p_liq']:
                 self.liquidate()
-            elif x > 1 - P['p_inplace'] and self._inplace(r):
-                pass
-            elif x > 1 - P['p_inplace'] - P['p_withdraw'] and self._withdraw(r):
-                pass
-            elif x > 1 - P['p_inplace'] - P['p_withdraw'] - P['p_move_entry'] and self._move_entry(r):
-                pass
+            elif x > 1 - P['p_inplace']:
+                self._inplace(r)
+            elif x > 1 - P['p_inplace'] - P['p_withdraw']:
+                self._withdraw(r)
+            elif x > 1 - P['p_inplace'] - P['p_withdraw'] - P['p_move_entry']:
+                self._move_entry(r)
             elif x < P['p_liq'] + P['p_edit'] and self.position.qty != 0:
                 sign = 1 if self.position.qty > 0 else -1
                 self._set_exits(r, sign, abs(self.position.qty), r.choice(['sl', 'tp', 'both']))
@@ -651,8 +651,9 @@ def gen_items(seed, count, kinds, n_minutes=240):
                        p_edit=0.1, p_liq=0.02, p_cancel=0.2, entry_every=rng.choice([9, 11]),
                        sl_dist=(120, 200) if kind == 'big' else (12, 20), tp_dist=(100, 180) if kind == 'big' else (10, 18))
         elif kind == 'spotover':   # fee-free spot, full-size stop next to a partial take-profit, never re-sized
-            pol.update(base=100, tick=1.0, qtys=(1, 2), max_entry_rows=1, max_exit_rows=2, exits_in='on_open', allow_short=False,
-                       oversize_sl=True, p_edit=0.0, p_edit_reduced=0.0, p_edit_increased=0.0, p_liq=0.0, p_inplace=0.0, p_edit_entry=0.0)
+            pol.update(base=100, tick=1.0, qtys=(2, 3), max_exit_rows=2, exits_in='on_open', allow_short=False,
+                       oversize_sl=True, p_edit=0.0, p_edit_reduced=0.0, p_edit_increased=0.0, p_liq=0.0, p_inplace=0.0, p_edit_entry=0.0,
+                       p_withdraw=0.0, max_entry_rows=2, sl_dist=(3, 5), tp_dist=(2, 4), entry_every=rng.choice([5, 7]))
             it.update(spot=True, fee=[0, 1])
         elif kind == 'fast2':      # fast simulator, two symbols, all timeframes > 1m: resting orders fill mid-chunk
             tf = rng.choice(['5m', '15m'])
